@@ -86,6 +86,8 @@ pub struct Outcome {
     /// kinds of futures pending at the close instant ("l:read", "p:accept_uni", ...)
     pub blocked: Vec<String>,
     pub close_done: bool,
+    /// the close action actually performed (a `drop` may fall back to `Connection::close`)
+    pub close_kind: u8,
     pub counters: HashMap<&'static str, i64>,
     pub floors: HashSet<&'static str>,
     pub detail: Value,
@@ -154,6 +156,7 @@ struct Trk {
     epoch: u64,
     done: bool,
     last: String,
+    ready_at: Option<Instant>,
 }
 
 #[derive(Debug, Default)]
@@ -196,6 +199,8 @@ struct Inner {
     setup_done: bool,
     setup_err: Option<String>,
     closed_cancelled: [bool; 2],
+    t0: Instant,
+    t_stage1: Duration,
 }
 
 type W = Rc<RefCell<Inner>>;
@@ -260,6 +265,7 @@ where
             epoch: 0,
             done: false,
             last: String::new(),
+            ready_at: None,
         });
         i.trk.len() - 1
     };
@@ -292,6 +298,7 @@ async fn tr<F: Future>(w: &W, tid: usize, op: Op, f: F) -> F::Output {
                 t.pending = false;
                 t.epoch += 1;
                 t.op = Op::Idle;
+                t.ready_at = Some(Instant::now());
             }
         }
         r
@@ -384,8 +391,27 @@ fn unexpected(w: &W, op: &str, class: &str, ctx: String) {
     if i.closing {
         return;
     }
-    if class.contains("TimedOut") {
-        i.incon.push("idle-timeout-before-close".into());
+    if class.contains("TimedOut") || i.incon.iter().any(|x| x == "idle-timeout-before-close") {
+        // (after an idle timeout compio-quic's implicit close on handle drop rewrites the
+        // stored reason to LocallyClosed: later errors of the same program belong to it)
+        if !i.incon.iter().any(|x| x == "idle-timeout-before-close") {
+            let unsettled: Vec<String> = i
+                .trk
+                .iter()
+                .filter(|t| !(t.done || (t.pending && t.op != Op::Sleep)))
+                .map(|t| format!("{}:{}:{}", t.what, t.op.name(), t.last))
+                .collect();
+            let msg = format!(
+                "idle timeout before the close point in {op} at t={:?} (stage 1 began at {:?}); close.at={} unsettled tasks: {unsettled:?}",
+                i.t0.elapsed(),
+                i.t_stage1,
+                i.prog.close.at
+            );
+            i.note(msg);
+        }
+        if !i.incon.iter().any(|x| x == "idle-timeout-before-close") {
+            i.incon.push("idle-timeout-before-close".into());
+        }
         return;
     }
     let drv = i.prog.driver_name();
@@ -399,7 +425,9 @@ fn unexpected(w: &W, op: &str, class: &str, ctx: String) {
     if reasons.iter().any(|r| r.contains("too many gaps in stream buffer")) {
         // quinn-proto's own bound on buffered out-of-order chunks (MAX_CHUNKS): protocol
         // logic below the glue under test
-        i.incon.push("quinn-proto-limit:too-many-gaps".into());
+        if !i.incon.iter().any(|x| x == "quinn-proto-limit:too-many-gaps") {
+            i.incon.push("quinn-proto-limit:too-many-gaps".into());
+        }
         return;
     }
     i.violation(
@@ -575,6 +603,7 @@ struct Driver {
     ticks: u64,
     deadline: Instant,
     t0: Instant,
+    trace: u32,
 }
 
 const QUIET_WAITS_MS: [u64; 6] = [0, 0, 1, 5, 20, 50];
@@ -603,12 +632,24 @@ impl Driver {
             if Instant::now() > self.deadline {
                 return Stop::Watchdog;
             }
-            if hot {
+            if hot || met {
+                // (the extra ticks after the condition are executor ticks, not waits)
                 self.rt.poll_with(Some(Duration::ZERO));
                 self.act.absorb();
                 continue;
             }
             let timeout = self.rt.current_timeout();
+            if self.trace > 0 {
+                self.trace -= 1;
+                let i = w.borrow();
+                let st: Vec<String> = i
+                    .trk
+                    .iter()
+                    .filter(|t| !t.done && !(t.pending && t.op != Op::Sleep))
+                    .map(|t| format!("{}:{}:{}", t.what, t.op.name(), t.pending))
+                    .collect();
+                eprintln!("loop t={:?} tick={} timeout={timeout:?} quiet={quiet} unsettled={st:?}", self.t0.elapsed(), self.ticks);
+            }
             match timeout {
                 Some(t) => {
                     active = true;
@@ -649,6 +690,20 @@ async fn bind_endpoint(w: &W, side: usize, server: Option<ServerConfig>) -> Resu
         .await
         .map_err(|e| format!("bind: {e}"))?;
     let fd = unsafe { libc::dup(sock.as_raw_fd()) };
+    if w.borrow().prog.nonce % 4 != 0 {
+        // most programs: room for a whole burst, so that loss (and with it the wall time spent
+        // in quinn-proto's loss recovery) stays the exception; every fourth keeps the default
+        let sz: libc::c_int = 8 << 20;
+        unsafe {
+            libc::setsockopt(
+                sock.as_raw_fd(),
+                libc::SOL_SOCKET,
+                libc::SO_RCVBUFFORCE,
+                &sz as *const _ as *const libc::c_void,
+                std::mem::size_of::<libc::c_int>() as libc::socklen_t,
+            );
+        }
+    }
     let addr = sock.local_addr().map_err(|e| format!("local_addr: {e}"))?;
     let ep = Endpoint::new(sock, EndpointConfig::default(), server, None)
         .map_err(|e| format!("Endpoint::new: {e}"))?;
@@ -1012,8 +1067,8 @@ async fn reader(w: W, tid: usize, flow: usize, leg: usize, mut recv: RecvStream)
                 match res {
                     Ok(0) => eof = true,
                     Ok(n) => {
-                        if n > want || buf.len() != n || !verify(&w, flow, leg, r, &buf[..n.min(buf.len())]) {
-                            if n > want || buf.len() != n {
+                        if n > buf.capacity() || buf.len() != n || !verify(&w, flow, leg, r, &buf[..n.min(buf.len())]) {
+                            if n > buf.capacity() || buf.len() != n {
                                 let mut i = w.borrow_mut();
                                 let drv = i.prog.driver_name();
                                 i.violation(
@@ -1759,8 +1814,10 @@ pub fn run_program(p: &Prog, watchdog: Duration, verbose: bool) -> Outcome {
         setup_done: false,
         setup_err: None,
         closed_cancelled: [false, false],
+        t0: Instant::now(),
+        t_stage1: Duration::ZERO,
     }));
-    let mut d = Driver { rt: rt.clone(), act: Act::new(), ticks: 0, deadline: Instant::now() + watchdog, t0: Instant::now() };
+    let mut d = Driver { rt: rt.clone(), act: Act::new(), ticks: 0, deadline: Instant::now() + watchdog, t0: Instant::now(), trace: std::env::var("C16_TRACE_LOOP").ok().and_then(|v| v.parse().ok()).unwrap_or(0) };
     let stages = rt.enter(|| stages(&mut d, &w, &mut out, verbose));
     if let Err(reason) = stages {
         out.inconclusive.push(reason);
@@ -1783,8 +1840,8 @@ pub fn run_program(p: &Prog, watchdog: Duration, verbose: bool) -> Outcome {
     let mut i = w.borrow_mut();
     let mut foreign_panic = false;
     for pr in take_panics() {
-        if pr.file.starts_with("/repo/") || pr.file.contains("/repo/compio") {
-            let f = pr.file.trim_start_matches("/repo/");
+        if pr.file.starts_with("/repo/") || pr.file.contains("/repo/compio") || pr.file.contains("repo-mut/compio") {
+            let f = pr.file.trim_start_matches("/tmp/c16-repo-mut/").trim_start_matches("/repo/");
             let what = if pr.msg.contains("unwrap_err") && f.ends_with("connection.rs") { "/closed" } else { "" };
             i.viol.push((
                 format!("C16/panic/{f}{what}/{}", p.driver_name()),
@@ -1808,6 +1865,11 @@ pub fn run_program(p: &Prog, watchdog: Duration, verbose: bool) -> Outcome {
     if foreign_panic {
         // a task died from a panic below compio (e.g. inside quinn-proto): whatever hangs
         // afterwards is a consequence, not a finding about the glue
+        out.violations.retain(|(s, _)| s.starts_with("C16/panic/"));
+    }
+    if i.incon.iter().any(|r| r.starts_with("quinn-proto-limit") || r == "idle-timeout-before-close") {
+        // the connection was lost before the close point for a reason outside the glue: what
+        // follows (unfinished transfers in a quiescent runtime, ...) is a consequence
         out.violations.retain(|(s, _)| s.starts_with("C16/panic/"));
     }
     out.inconclusive.append(&mut i.incon);
@@ -1838,6 +1900,10 @@ fn stages(d: &mut Driver, w: &W, out: &mut Outcome, verbose: bool) -> Result<(),
         return Err(format!("setup-failed:{}", e.split(':').next().unwrap_or("")));
     }
     // ---- stage 1: workload until the close point
+    {
+        let mut i = w.borrow_mut();
+        i.t_stage1 = i.t0.elapsed();
+    }
     spawn_workload(w);
     let t0 = d.ticks;
     let stop = match p.close.at {
@@ -1898,7 +1964,6 @@ fn stages(d: &mut Driver, w: &W, out: &mut Outcome, verbose: bool) -> Result<(),
     }
     // ---- stage 2: the close action
     let mut snap;
-    let close_kind;
     {
         let mut i = w.borrow_mut();
         i.closing = true;
@@ -1912,7 +1977,7 @@ fn stages(d: &mut Driver, w: &W, out: &mut Outcome, verbose: bool) -> Result<(),
                 i.count("drop-fell-back-to-close", 1);
             }
         }
-        close_kind = kind;
+        out.close_kind = kind;
         i.prog.close.kind = kind;
         snap = snapshot(&i);
         if verbose {
@@ -1944,10 +2009,18 @@ fn stages(d: &mut Driver, w: &W, out: &mut Outcome, verbose: bool) -> Result<(),
     }
     out.blocked.sort();
     out.close_done = true;
-    let _ = close_kind;
+    let close_t = Instant::now();
     let stop = d.drive(w, &|i, _| still_pending(i, &snap, 1).is_empty(), 0);
     if verbose {
         eprintln!("stage2 stop={stop:?} ticks={} t={:?}", d.ticks, d.t0.elapsed());
+        let i = w.borrow();
+        for s in 0..2 {
+            eprintln!("  side {s} close_reason={:?}", i.conn[s].as_ref().map(|c| c.close_reason()));
+        }
+        for s in &snap {
+            let t = &i.trk[s.tid];
+            eprintln!("  {} side {} {} ready after {:?}", t.what, s.side, s.op.name(), t.ready_at.map(|x| x.saturating_duration_since(close_t)));
+        }
     }
     let mut had_stranded = false;
     match stop {
@@ -1964,7 +2037,7 @@ fn stages(d: &mut Driver, w: &W, out: &mut Outcome, verbose: bool) -> Result<(),
     }
     // ---- stage 3: close everything that is left; all remaining futures are due
     {
-        let mut i = w.borrow_mut();
+        let i = w.borrow_mut();
         // futures that became pending since the first close are due now as well
         let more = snapshot(&i);
         for s in more {
@@ -2004,7 +2077,6 @@ fn stages(d: &mut Driver, w: &W, out: &mut Outcome, verbose: bool) -> Result<(),
         if stop == Stop::Quiescent {
             let mut i = w.borrow_mut();
             let drv = i.prog.driver_name();
-            let close = i.prog.close_name();
             let left: Vec<(String, &'static str, String, usize)> = i
                 .trk
                 .iter()
@@ -2066,7 +2138,6 @@ fn stages(d: &mut Driver, w: &W, out: &mut Outcome, verbose: bool) -> Result<(),
                 let sides: Vec<usize> = i.trk.iter().filter(|t| !t.done && t.op == Op::Shutdown).map(|t| t.side).collect();
                 for side in sides {
                     if i.closed_cancelled[side] {
-                        let close = i.prog.close_name();
                         i.violation(
                             format!("C16/stranded/after-dropped-closed-future/{drv}"),
                             "Endpoint::shutdown never completes: the connection whose closed() future was dropped never drains".into(),
